@@ -201,6 +201,12 @@ def run(rep, tier):
         vs = [c09.to_cfg(c, post_checks=('vf.props._hist:check_tiling',)) for c in c09.ball(1, Ps=(1, 2, 3, 4))]
         bound = 2
     vs += [c09.cfg(P=P, adaptive=None, restart_script=True, restarting={'max_restarts': 2, 'restart_from_first_step': ff}, post_checks=('vf.props._hist:check_tiling',)) for P in (2, 3) for ff in (False, True)]
+    # a second run() on the same controller, continued where the first (adaptive) one stopped: the inactive steps of
+    # a partially filled last block keep their old step size, which the time set-up of the next run must cope with
+    for P, tend in ((3, 'two_and_a_half'), (3, 'far')) + (((4, 'far'), (2, 'two_and_a_half')) if tier == 'thorough' else ()):
+        c = dict(c09.ball(0)[0])
+        c['P'], c['tend'] = P, tend
+        vs.append(c09.to_cfg(c, est_n=4, second_run=0.5, post_checks=('vf.props._hist:check_tiling',)))
     res = _e1.explore_variants(rep, make, vs, bound=bound, label='histories')
     rep.coverage['history_executions'] = sum(st.executions for _, st in res)
     rep.coverage['traces_validated_against_impl'] = rep.coverage.get('traces_validated_against_impl', 0) + len(cases)
